@@ -108,7 +108,9 @@ func concChildMain(args []string) int {
 		h.Keys = 8 + r.Intn(5)
 		o.memstore = uint64([]int{150, 300}[r.Intn(2)])
 		h.Memstore = o.memstore
-		o.maxSize = uint64(1500 + r.Intn(3000))
+		// small limit: a merge of a few flushed tables exceeds it, so the merged table is not selected again and the order a
+		// compaction cycle installs stays in place for the rest of the run
+		o.maxSize = uint64(650 + r.Intn(150))
 		o.threshold = r.Intn(2)
 		o.ratioNum, o.ratioDen = 1, 1
 	}
@@ -153,12 +155,15 @@ func concChildMain(args []string) int {
 	stamp := func() int64 { return atomic.AddInt64(&clock, 1) }
 	perThread := total / h.Threads
 	recs := make([][]concOp, h.Threads)
-	// lineage (35%): before the goroutines start, thread 0 writes one large value per key and rotates, so that the oldest
-	// table exceeds the compaction size limit and later compactions merge runs that do NOT start at the oldest table
-	// while the clients overwrite and delete exactly those keys
+	// lineage (35%): before the goroutines start, thread 0 writes one large value per key, so that the oldest tables
+	// exceed the compaction size limit and later compactions merge runs that do NOT start at the oldest table while
+	// the clients overwrite and delete exactly those keys
 	if h.Lineage {
 		for i, k := range keys {
-			v := append([]byte(fmt.Sprintf("v0-pre%d-", i)), bytesRepeat('y', 1200+r.Intn(800))...)
+			// larger than the size limit on its own: with the tiny memstore every one of these puts rotates, and each of
+			// the resulting one-key tables is excluded from compaction by its size
+			// (incompressible: the size limit is compared with the size of the compressed data file)
+			v := append([]byte(fmt.Sprintf("v0-pre%d-", i)), r.Bytes(int(o.maxSize)+200+r.Intn(500))...)
 			op := concOp{T: 0, Kind: "p", Key: hex.EncodeToString(k), Val: hex.EncodeToString(v), Call: stamp()}
 			op.Out = dbRes(db.PutBytes(k, v))
 			op.Ret = stamp()
@@ -171,6 +176,10 @@ func concChildMain(args []string) int {
 		db.VerifWaitFlushIdle()
 		hk.Ret = stamp()
 		h.Hooks = append(h.Hooks, hk)
+		if os.Getenv("VERIF_CONC_DEBUG") != "" {
+			n, sz, _, _ := db.VerifTables()
+			fmt.Fprintln(os.Stderr, "after preload:", n, sz, o.maxSize)
+		}
 	}
 	var wg sync.WaitGroup
 	start := make(chan struct{})
@@ -183,8 +192,19 @@ func concChildMain(args []string) int {
 			<-start
 			for i := 0; i < perThread; i++ {
 				k := keys[rr.Intn(len(keys))]
+				c := rr.Intn(100)
+				if h.Lineage {
+					// the first three keys are COLD: read often, written rarely — their last write stays in an old (compacted)
+					// table for a long time, so what a read returns depends on where the compaction result was installed
+					const cold = 3
+					if (c < 45 && rr.Chance(40)) || (c >= 45 && rr.Chance(3)) {
+						k = keys[rr.Intn(cold)]
+					} else {
+						k = keys[cold+rr.Intn(len(keys)-cold)]
+					}
+				}
 				op := concOp{T: t, Key: hex.EncodeToString(k)}
-				switch c := rr.Intn(100); {
+				switch {
 				case c < 45:
 					op.Kind = "g"
 					op.Call = stamp()
@@ -210,7 +230,11 @@ func concChildMain(args []string) int {
 					op.Kind = "p"
 					serial++
 					v := []byte(fmt.Sprintf("v%d-%d-", t, serial)) // unique: a read identifies its write
-					v = append(v, bytesRepeat('x', rr.Intn(70))...)
+					if h.Lineage {
+						v = append(v, rr.Bytes(40+rr.Intn(100))...) // incompressible: table sizes follow the contents
+					} else {
+						v = append(v, bytesRepeat('x', rr.Intn(70))...)
+					}
 					op.Val = hex.EncodeToString(v)
 					op.Call = stamp()
 					var err error
@@ -256,8 +280,8 @@ func concChildMain(args []string) int {
 			time.Sleep(time.Duration(hr.Intn(400)) * time.Microsecond)
 			hk := concHook{Call: stamp()}
 			c := hr.Intn(100)
-			if h.Lineage && c < 50 {
-				c = 99 // mostly compaction cycles
+			if h.Lineage && c >= 75 {
+				continue // fewer events: more client calls between two compaction cycles
 			}
 			switch {
 			case c < 35:
@@ -270,7 +294,15 @@ func concChildMain(args []string) int {
 				db.VerifWaitFlushIdle()
 			default:
 				hk.Kind = "compact"
+				if os.Getenv("VERIF_CONC_DEBUG") != "" {
+					n, sz, _, _ := db.VerifTables()
+					fmt.Fprintln(os.Stderr, "before compaction:", n, sz)
+				}
 				sel, _, err := db.VerifCompactOnce()
+				if os.Getenv("VERIF_CONC_DEBUG") != "" {
+					n, sz, _, _ := db.VerifTables()
+					fmt.Fprintln(os.Stderr, "  selected", sel, "after:", n, sz)
+				}
 				hk.Sel = len(sel)
 				if err != nil {
 					hk.Err = err.Error()
